@@ -28,8 +28,10 @@ func init() {
 	vhRegister("vh_C12_load_twin", vh_C12_load_twin)
 	vhRegister("vh_C12_roundtrip", vh_C12_roundtrip)
 	vhRegister("vh_C01_loadtwice", vh_C01_loadtwice)
-	vhRegister("vh_C12_loadtwice", vh_C01_loadtwice)
+	vhRegister("vh_C12_loadtwice", vh_C12_loadtwice)
 }
+
+func vh_C12_loadtwice(a []int) { vh_C01_loadtwice(a) }
 
 // vh_C01_loadtwice / vh_C12_loadtwice: two signed layouts are written and loaded one after the other in
 // the same process (as happens with sublayouts).  What was loaded first is exactly what its file says and
